@@ -9,6 +9,7 @@ or underflow at any node, the results must be identical (floats up to the sign o
 from __future__ import annotations
 
 import inspect
+import re
 import multiprocessing as mp
 import warnings
 
@@ -92,8 +93,11 @@ def job(arg):
     n = {}
 
     def rec(name, **kw):
-        lst = fails.setdefault(name, [])
-        if len(lst) < 3:
+        # one obligation per mode AND kind of failure, so that a listed finding of one kind never hides another
+        cat = "raises" if "raised" in kw.get("what", "") else "result-differs"
+        lst = fails.setdefault(name + "/" + cat, [])
+        m = re.search(r"raised (\w+)\(", kw.get("what", ""))
+        if len(lst) < 3 or (m and not any(m.group(1) + "(" in f.get("what", "") for f in lst)):
             lst.append(kw)
 
     def sem(kind):
@@ -185,9 +189,9 @@ def run(rep, tier, prop="C04"):
                 seen[k] = seen.get(k, 0) + v
             for k, lst in fails.items():
                 agg.setdefault(k, []).extend(lst)
-    for key in ("float32", "float64", "float", "mixed-widths", "deep_first=False", "enable_alt"):
+    for key in [m + "/" + c for m in ("float32", "float64", "float", "mixed-widths", "deep_first=False", "enable_alt") for c in ("result-differs", "raises")]:
         lst = agg.get(key, [])
-        rep.add(core.decided("%s/bounded/rewrite-preserves-value/%s" % (prop, key), prop, not lst and seen.get(key, 0) > 0, functions=("rewrite.Rewriter", "expr.Expr.rewrite"), text="bounded stand-in: %d random graphs rewritten, both versions executed" % seen.get(key, 0), detail=dict(failures=lst[:3], graphs=seen.get(key, 0)), kind="bounded", solver="native-run", meta=dict(part="bounded", fails=lst[:3], key=key)))
+        rep.add(core.decided("%s/bounded/rewrite-preserves-value/%s" % (prop, key), prop, not lst and seen.get(key.split("/")[0], 0) > 0, functions=("rewrite.Rewriter", "expr.Expr.rewrite"), text="bounded stand-in: %d random graphs rewritten, both versions executed" % seen.get(key.split("/")[0], 0), detail=dict(failures=lst[:3], graphs=seen.get(key.split("/")[0], 0)), kind="bounded", solver="native-run", meta=dict(part="bounded", fails=lst[:6], key=key)))
     rep.bounded.append(dict(what="random graphs over the kinds of the statement (incl. up/downcast chains, mixed int/float constants, nested selects with combined conditions) rewritten by the real rewrite module after the NumPy target's pass; original and rewritten graph executed through the NumPy printer and compared wherever no node of the original is NaN, infinite or subnormal", bound="%d seeded graphs of 2..8 operation nodes over 1..3 symbols, float32 and float64, 8 input points each" % per, counted_as_proved=False))
 
 
@@ -196,5 +200,5 @@ def replay(o):
     if meta.get("part") != "bounded":
         return None
     fails = meta.get("fails") or []
-    cats = sorted({"raises" if "raised" in str(f.get("what", "")) else "result differs" for f in fails})
-    return dict(replayed=bool(fails), failing_inputs=fails, witness_class="rewrite %s: %s" % (meta.get("key"), ", ".join(cats)))
+    excs = sorted({m.group(1) for f in fails for m in [re.search(r"raised (\w+)\(", str(f.get("what", "")))] if m})
+    return dict(replayed=bool(fails), failing_inputs=fails, witness_class="rewrite %s%s" % (meta.get("key"), (" " + ",".join(excs)) if excs else ""))
